@@ -7,6 +7,9 @@ theories/Base/FieldLemmas.vos theories/Base/FieldLemmas.vok theories/Base/FieldL
 theories/Base/Scalar.vo theories/Base/Scalar.glob theories/Base/Scalar.v.beautified theories/Base/Scalar.required_vo: theories/Base/Scalar.v 
 theories/Base/Scalar.vio: theories/Base/Scalar.v 
 theories/Base/Scalar.vos theories/Base/Scalar.vok theories/Base/Scalar.required_vos: theories/Base/Scalar.v 
+theories/DFT/DFT1.vo theories/DFT/DFT1.glob theories/DFT/DFT1.v.beautified theories/DFT/DFT1.required_vo: theories/DFT/DFT1.v theories/Base/Scalar.vo theories/Base/FieldLemmas.vo
+theories/DFT/DFT1.vio: theories/DFT/DFT1.v theories/Base/Scalar.vio theories/Base/FieldLemmas.vio
+theories/DFT/DFT1.vos theories/DFT/DFT1.vok theories/DFT/DFT1.required_vos: theories/DFT/DFT1.v theories/Base/Scalar.vos theories/Base/FieldLemmas.vos
 theories/ETDRK/Order.vo theories/ETDRK/Order.glob theories/ETDRK/Order.v.beautified theories/ETDRK/Order.required_vo: theories/ETDRK/Order.v theories/Base/Scalar.vo theories/Base/FieldLemmas.vo theories/ETDRK/Phi.vo
 theories/ETDRK/Order.vio: theories/ETDRK/Order.v theories/Base/Scalar.vio theories/Base/FieldLemmas.vio theories/ETDRK/Phi.vio
 theories/ETDRK/Order.vos theories/ETDRK/Order.vok theories/ETDRK/Order.required_vos: theories/ETDRK/Order.v theories/Base/Scalar.vos theories/Base/FieldLemmas.vos theories/ETDRK/Phi.vos
@@ -19,9 +22,9 @@ theories/ETDRK/Scaling.vos theories/ETDRK/Scaling.vok theories/ETDRK/Scaling.req
 theories/Exec/Codec.vo theories/Exec/Codec.glob theories/Exec/Codec.v.beautified theories/Exec/Codec.required_vo: theories/Exec/Codec.v theories/Base/Scalar.vo theories/Base/FieldLemmas.vo theories/Base/Cplx.vo
 theories/Exec/Codec.vio: theories/Exec/Codec.v theories/Base/Scalar.vio theories/Base/FieldLemmas.vio theories/Base/Cplx.vio
 theories/Exec/Codec.vos theories/Exec/Codec.vok theories/Exec/Codec.required_vos: theories/Exec/Codec.v theories/Base/Scalar.vos theories/Base/FieldLemmas.vos theories/Base/Cplx.vos
-theories/Exec/Entry.vo theories/Exec/Entry.glob theories/Exec/Entry.v.beautified theories/Exec/Entry.required_vo: theories/Exec/Entry.v theories/Base/Scalar.vo theories/Base/FieldLemmas.vo theories/Base/Cplx.vo theories/Exec/Codec.vo theories/Utils/Rollout.vo theories/Gen/ETDRK.vo theories/Gen/Guards.vo theories/Spectral/Symbols.vo theories/Gen/GenericUtils.vo theories/Steppers/Linear.vo
-theories/Exec/Entry.vio: theories/Exec/Entry.v theories/Base/Scalar.vio theories/Base/FieldLemmas.vio theories/Base/Cplx.vio theories/Exec/Codec.vio theories/Utils/Rollout.vio theories/Gen/ETDRK.vio theories/Gen/Guards.vio theories/Spectral/Symbols.vio theories/Gen/GenericUtils.vio theories/Steppers/Linear.vio
-theories/Exec/Entry.vos theories/Exec/Entry.vok theories/Exec/Entry.required_vos: theories/Exec/Entry.v theories/Base/Scalar.vos theories/Base/FieldLemmas.vos theories/Base/Cplx.vos theories/Exec/Codec.vos theories/Utils/Rollout.vos theories/Gen/ETDRK.vos theories/Gen/Guards.vos theories/Spectral/Symbols.vos theories/Gen/GenericUtils.vos theories/Steppers/Linear.vos
+theories/Exec/Entry.vo theories/Exec/Entry.glob theories/Exec/Entry.v.beautified theories/Exec/Entry.required_vo: theories/Exec/Entry.v theories/Base/Scalar.vo theories/Base/FieldLemmas.vo theories/Base/Cplx.vo theories/Exec/Codec.vo theories/Utils/Rollout.vo theories/Gen/ETDRK.vo theories/Gen/Guards.vo theories/Spectral/Symbols.vo theories/Gen/GenericUtils.vo theories/Steppers/Linear.vo theories/Layout/Freq.vo
+theories/Exec/Entry.vio: theories/Exec/Entry.v theories/Base/Scalar.vio theories/Base/FieldLemmas.vio theories/Base/Cplx.vio theories/Exec/Codec.vio theories/Utils/Rollout.vio theories/Gen/ETDRK.vio theories/Gen/Guards.vio theories/Spectral/Symbols.vio theories/Gen/GenericUtils.vio theories/Steppers/Linear.vio theories/Layout/Freq.vio
+theories/Exec/Entry.vos theories/Exec/Entry.vok theories/Exec/Entry.required_vos: theories/Exec/Entry.v theories/Base/Scalar.vos theories/Base/FieldLemmas.vos theories/Base/Cplx.vos theories/Exec/Codec.vos theories/Utils/Rollout.vos theories/Gen/ETDRK.vos theories/Gen/Guards.vos theories/Spectral/Symbols.vos theories/Gen/GenericUtils.vos theories/Steppers/Linear.vos theories/Layout/Freq.vos
 theories/Exec/Extract.vo theories/Exec/Extract.glob theories/Exec/Extract.v.beautified theories/Exec/Extract.required_vo: theories/Exec/Extract.v theories/Exec/Entry.vo
 theories/Exec/Extract.vio: theories/Exec/Extract.v theories/Exec/Entry.vio
 theories/Exec/Extract.vos theories/Exec/Extract.vok theories/Exec/Extract.required_vos: theories/Exec/Extract.v theories/Exec/Entry.vos
@@ -34,12 +37,21 @@ theories/Gen/GenericUtils.vos theories/Gen/GenericUtils.vok theories/Gen/Generic
 theories/Gen/Guards.vo theories/Gen/Guards.glob theories/Gen/Guards.v.beautified theories/Gen/Guards.required_vo: theories/Gen/Guards.v 
 theories/Gen/Guards.vio: theories/Gen/Guards.v 
 theories/Gen/Guards.vos theories/Gen/Guards.vok theories/Gen/Guards.required_vos: theories/Gen/Guards.v 
+theories/Layout/Freq.vo theories/Layout/Freq.glob theories/Layout/Freq.v.beautified theories/Layout/Freq.required_vo: theories/Layout/Freq.v 
+theories/Layout/Freq.vio: theories/Layout/Freq.v 
+theories/Layout/Freq.vos theories/Layout/Freq.vok theories/Layout/Freq.required_vos: theories/Layout/Freq.v 
+theories/Layout/FreqProofs.vo theories/Layout/FreqProofs.glob theories/Layout/FreqProofs.v.beautified theories/Layout/FreqProofs.required_vo: theories/Layout/FreqProofs.v theories/Layout/Freq.vo
+theories/Layout/FreqProofs.vio: theories/Layout/FreqProofs.v theories/Layout/Freq.vio
+theories/Layout/FreqProofs.vos theories/Layout/FreqProofs.vok theories/Layout/FreqProofs.required_vos: theories/Layout/FreqProofs.v theories/Layout/Freq.vos
 theories/Props/C01.vo theories/Props/C01.glob theories/Props/C01.v.beautified theories/Props/C01.required_vo: theories/Props/C01.v theories/Base/Scalar.vo theories/Base/FieldLemmas.vo theories/Spectral/Symbols.vo theories/Spectral/LinOp.vo theories/Steppers/Linear.vo theories/Steppers/LinearProofs.vo theories/Gen/ETDRK.vo theories/Base/Cplx.vo
 theories/Props/C01.vio: theories/Props/C01.v theories/Base/Scalar.vio theories/Base/FieldLemmas.vio theories/Spectral/Symbols.vio theories/Spectral/LinOp.vio theories/Steppers/Linear.vio theories/Steppers/LinearProofs.vio theories/Gen/ETDRK.vio theories/Base/Cplx.vio
 theories/Props/C01.vos theories/Props/C01.vok theories/Props/C01.required_vos: theories/Props/C01.v theories/Base/Scalar.vos theories/Base/FieldLemmas.vos theories/Spectral/Symbols.vos theories/Spectral/LinOp.vos theories/Steppers/Linear.vos theories/Steppers/LinearProofs.vos theories/Gen/ETDRK.vos theories/Base/Cplx.vos
 theories/Props/C02.vo theories/Props/C02.glob theories/Props/C02.v.beautified theories/Props/C02.required_vo: theories/Props/C02.v theories/Base/Scalar.vo theories/Base/FieldLemmas.vo theories/ETDRK/Phi.vo theories/ETDRK/Order.vo theories/Gen/ETDRK.vo theories/Tie/ETDRKTie.vo theories/Base/Cplx.vo
 theories/Props/C02.vio: theories/Props/C02.v theories/Base/Scalar.vio theories/Base/FieldLemmas.vio theories/ETDRK/Phi.vio theories/ETDRK/Order.vio theories/Gen/ETDRK.vio theories/Tie/ETDRKTie.vio theories/Base/Cplx.vio
 theories/Props/C02.vos theories/Props/C02.vok theories/Props/C02.required_vos: theories/Props/C02.v theories/Base/Scalar.vos theories/Base/FieldLemmas.vos theories/ETDRK/Phi.vos theories/ETDRK/Order.vos theories/Gen/ETDRK.vos theories/Tie/ETDRKTie.vos theories/Base/Cplx.vos
+theories/Props/C04.vo theories/Props/C04.glob theories/Props/C04.v.beautified theories/Props/C04.required_vo: theories/Props/C04.v theories/Base/Scalar.vo theories/Base/FieldLemmas.vo theories/Layout/Freq.vo theories/Layout/FreqProofs.vo theories/DFT/DFT1.vo theories/Base/Cplx.vo
+theories/Props/C04.vio: theories/Props/C04.v theories/Base/Scalar.vio theories/Base/FieldLemmas.vio theories/Layout/Freq.vio theories/Layout/FreqProofs.vio theories/DFT/DFT1.vio theories/Base/Cplx.vio
+theories/Props/C04.vos theories/Props/C04.vok theories/Props/C04.required_vos: theories/Props/C04.v theories/Base/Scalar.vos theories/Base/FieldLemmas.vos theories/Layout/Freq.vos theories/Layout/FreqProofs.vos theories/DFT/DFT1.vos theories/Base/Cplx.vos
 theories/Props/C13.vo theories/Props/C13.glob theories/Props/C13.v.beautified theories/Props/C13.required_vo: theories/Props/C13.v theories/Base/Scalar.vo theories/Base/FieldLemmas.vo theories/Spectral/Symbols.vo theories/Gen/GenericUtils.vo theories/Tie/GenericUtilsTie.vo theories/Steppers/Generic.vo theories/ETDRK/Phi.vo theories/ETDRK/Scaling.vo
 theories/Props/C13.vio: theories/Props/C13.v theories/Base/Scalar.vio theories/Base/FieldLemmas.vio theories/Spectral/Symbols.vio theories/Gen/GenericUtils.vio theories/Tie/GenericUtilsTie.vio theories/Steppers/Generic.vio theories/ETDRK/Phi.vio theories/ETDRK/Scaling.vio
 theories/Props/C13.vos theories/Props/C13.vok theories/Props/C13.required_vos: theories/Props/C13.v theories/Base/Scalar.vos theories/Base/FieldLemmas.vos theories/Spectral/Symbols.vos theories/Gen/GenericUtils.vos theories/Tie/GenericUtilsTie.vos theories/Steppers/Generic.vos theories/ETDRK/Phi.vos theories/ETDRK/Scaling.vos
